@@ -5,6 +5,7 @@ if the defect is present, else None.  `fixed` findings must not reproduce (a rep
 under the finding's key — a fixed entry suppresses nothing); `open` findings are reported under their key, which the
 verdict logic turns into a KNOWN-FINDING line.
 """
+import os
 import warnings
 
 import numpy as np
@@ -451,6 +452,83 @@ def c04_metric_supervision_far_edges():
     return None if far == 0 else f"supervised fit with a continuous target: {far} edges join samples at distance >= disconnection_distance"
 
 
+def c14_correlation_orthogonal():
+    return _grad_witness("correlation", np.array([1.0, -1.0, 0.0, 0.0]), np.array([0.0, 0.0, 1.0, -1.0]))
+
+
+def c14_hellinger_zero_entry():
+    import umap.distances as D
+    d, g = D.hellinger_grad(np.array([0.3, 0.2, 0.5]), np.array([0.6, 0.0, 0.4]))
+    if not np.all(np.isfinite(g)):
+        return f"hellinger_grad with y = [0.6, 0, 0.4]: gradient {np.asarray(g).tolist()}"
+    return _grad_witness("hellinger", np.array([0.3, 0.2, 0.5]), np.array([0.6, 0.0, 0.4]))
+
+
+def c12_hellinger_proportional():
+    import umap.distances as D
+    x = np.array([0.91275558, 0.60663578, 0.72949656, 0.54362499, 0.93507242])
+    r = _rng(0)
+    bad = [float(v) for v in (D.hellinger(x, 3 * x),) + tuple(D.hellinger(z, 3 * z) for z in r.random((200, 5))) if not (abs(v) < 1e-6)]
+    return None if not bad else f"hellinger(x, 3x) = {bad[0]} for {len(bad)} of 201 proportional pairs (definition: 0)"
+
+
+def c20_sticky_force_flag():
+    import umap
+    r = _rng(0)
+    X = r.normal(size=(120, 30)).astype(np.float32)
+    from sklearn.metrics import pairwise_distances
+    Dm = pairwise_distances(X)
+    idx = np.argsort(Dm, axis=1)[:, :8]
+    dist = np.take_along_axis(Dm, idx, axis=1).astype(np.float32)
+    kw = dict(n_neighbors=8, random_state=1, n_epochs=0, init="random")
+    with warnings.catch_warnings():
+        warnings.simplefilter("ignore")
+        est = umap.UMAP(precomputed_knn=(idx, dist), **kw)
+        est.fit(X)
+        g = est.fit(X[:-5]).graph_
+        ref = umap.UMAP(**kw).fit(X[:-5]).graph_
+    return None if (g != ref).nnz == 0 else "estimator refitted with an ignored precomputed_knn differs from an ordinary fit (force_approximation_algorithm stuck at True)"
+
+
+def c19_tensor_width():
+    """datasets with more samples than the largest index named in a relation, under numba bounds checking (child process)"""
+    import subprocess
+    import sys
+    from common import REPO
+    code = ("import sys, warnings\n"
+            f"sys.path.insert(0, {REPO!r})\n"
+            "warnings.filterwarnings('ignore')\n"
+            "import numpy as np\n"
+            "from umap import AlignedUMAP\n"
+            "r = np.random.RandomState(0)\n"
+            "Xs = [r.normal(size=(40, 4)).astype(np.float32) for _ in range(3)]\n"
+            "m = AlignedUMAP(n_neighbors=5, n_epochs=10, random_state=1).fit(Xs, relations=[{i: i for i in range(10)}] * 2)\n"
+            "print('SHAPES', [e.shape for e in m.embeddings_])\n")
+    env = dict(os.environ, NUMBA_BOUNDSCHECK="1", NUMBA_CACHE_DIR=os.path.join(os.environ.get("NUMBA_CACHE_DIR", "/tmp"), "boundscheck"))
+    pr = subprocess.run([sys.executable, "-W", "ignore", "-c", code], stdout=subprocess.PIPE, stderr=subprocess.PIPE, env=env, timeout=900)
+    out = pr.stdout.decode()
+    if pr.returncode == 0 and "SHAPES [(40, 2), (40, 2), (40, 2)]" in out:
+        return None
+    tail = pr.stderr.decode().strip().splitlines()[-1:] or [""]
+    return f"AlignedUMAP on 40-sample datasets related through samples 0..9 only, with bounds checking: exit {pr.returncode}, {tail[0][:120]}"
+
+
+def c19_aligned_unique():
+    from umap import AlignedUMAP
+    r = _rng(0)
+    Xs = [r.normal(size=(30, 4)).astype(np.float32) for _ in range(2)]
+    Xs[0][5] = Xs[0][3]
+    Xs[0][9] = Xs[0][7]
+    try:
+        with warnings.catch_warnings():
+            warnings.simplefilter("ignore")
+            m = AlignedUMAP(n_neighbors=5, n_epochs=5, random_state=1, unique=True).fit(Xs, relations=[{i: i for i in range(30)}])
+        shapes = [tuple(e.shape) for e in m.embeddings_]
+    except Exception as e:  # noqa
+        return f"AlignedUMAP(unique=True) with repeated rows raised {type(e).__name__}: {str(e)[:80]}"
+    return None if shapes == [(30, 2), (30, 2)] else f"AlignedUMAP(unique=True), 30-row dataset with 2 repeated rows: embeddings of shapes {shapes}"
+
+
 def c17_short_run():
     """n_epochs <= 10 on a graph with edges between max/700 and max/500"""
     import umap
@@ -593,6 +671,12 @@ WITNESSES = {
     "C14:diagonal_gaussian_energy_grad-det-zero": c14_diag_det_zero,
     "C03:pynn-only-metric-sparse-small-data": c03_pynn_sparse_small,
     "C17:short-run-pruning-depends-on-densmap": c17_short_run,
+    "C14:correlation_grad-zero-centred-dot": c14_correlation_orthogonal,
+    "C14:hellinger_grad-zero-entry": c14_hellinger_zero_entry,
+    "C12:hellinger-proportional-nan": c12_hellinger_proportional,
+    "C20:force-flag-sticks-to-estimator": c20_sticky_force_flag,
+    "C19:relation-tensor-narrower-than-datasets": c19_tensor_width,
+    "C19:aligned-unique-wrong-shape": c19_aligned_unique,
     "C15:symmetric-graph-start-vector": c15_symmetric_path,
     "C10:sparse-training-data-not-recognised": c10_csr_copy,
     "C10:list-n_epochs-transform-typeerror": c10_list_epochs,
